@@ -267,18 +267,24 @@ def inventory(ctx, config, crate, amt, table_fns=(), scope=None, U_inv=None):
         if not all(wh.startswith("core::panicking::") for wh in by_fn.get(h, [])):
             return False
         return all(c in DOC or doc_helper(c, seen + (h,)) for c, _div in cs)
-    def guard_helper(h, seen=()):
-        """a private helper that *contains* the documented guard (returns normally for equal units, panics otherwise):
-        called only by the documented functions (or such helpers), its own sites nothing but the panic itself.  Which
-        inputs make it panic is C10's value-flow business; here it only matters that no other operation can reach it."""
-        cs = call_sites.get(h, [])
-        if not cs or h in seen or h in DOC:
-            return False
-        if not by_fn.get(h) or not all(wh.startswith("core::panicking::") for wh in by_fn.get(h, [])):
-            return False
-        return all(c in DOC or guard_helper(c, seen + (h,)) for c, _div in cs)
-    GUARD_HELPERS.update(h for h in by_fn if guard_helper(h))
-    for h in sorted(GUARD_HELPERS):
+    # private helpers carrying the documented mixed-unit panic — diverging ones (`fn unlike_units(..) -> !`) and ones
+    # that contain the guard (return normally for equal units): the greatest family F of functions whose own
+    # panic-capable sites are nothing but the panic itself or diverging calls into F, and all of whose callers are
+    # documented operations or members of F.  Which inputs make them panic is C10's value-flow business; here it
+    # only matters that no other operation can reach them.
+    def own_ok(h, F):
+        return all(wh.startswith("core::panicking::") or (wh.endswith(" (diverging)") and wh[:-len(" (diverging)")] in F) for wh in by_fn.get(h, []))
+    F = {h for h in by_fn if h not in DOC}
+    changed = True
+    while changed:
+        changed = False
+        for h in sorted(F):
+            cs = call_sites.get(h, [])
+            if not cs or not own_ok(h, F) or not all(c in DOC or c in F for c, _div in cs):
+                F.discard(h)
+                changed = True
+    GUARD_HELPERS.update(F)
+    for h in sorted(F):
         for c, _div in call_sites.get(h, []):
             if c in DOC:
                 sites.append((c, "core::panicking::panic_fmt", None))   # counts as the documented site of c
@@ -292,7 +298,7 @@ def inventory(ctx, config, crate, amt, table_fns=(), scope=None, U_inv=None):
             if d in DOC:
                 sites.append((d, "core::panicking::panic_fmt", sp))   # counts as the documented site of d
             continue
-        if what.startswith("core::panicking::") and d in GUARD_HELPERS:
+        if d in GUARD_HELPERS or (d in DOC and what.endswith(" (diverging)") and what[:-len(" (diverging)")] in GUARD_HELPERS):
             ctx.ob("panic-site", "%s/%s/%s" % (label, d, what), True, "the documented mixed-unit panic, raised in a private helper only the documented operations call", sp)
             continue
         if what.startswith("core::panicking::") and doc_helper(d):
